@@ -210,7 +210,7 @@ func verifEntryP(e *entryValueMap) string {
 	case p == unsafe.Pointer(expungedValueMap):
 		return "expunged"
 	}
-	return "val"
+	return "val:" + (*(**VMValue)(p)).ToString()
 }
 
 // VerifDump renders the internal state (must not race with other users).
